@@ -718,3 +718,8 @@ if __name__ == "__main__":
     except MachineryError as e:
         print("MACHINERY FAILURE:", e, file=sys.stderr)
         sys.exit(2)
+    except Exception:  # an unexpected failure of the machinery is never a verdict about mypy
+        import traceback
+        traceback.print_exc()
+        print("MACHINERY FAILURE: unexpected failure of the machinery", file=sys.stderr)
+        sys.exit(2)
